@@ -26,7 +26,15 @@ impl EventSource for RawIoBlock<'_> {
     fn subscribe(&mut self, co: CoroutineImpl) {
         #[cfg(feature = "io_cancel")]
         let handle = co_get_handle(&co);
-        let io_data = self.io_data;
+        // once the coroutine is stored another thread may resume it and it may drop the
+        // socket we were called through: use the shared event data by value from here
+        let io_data = (*self.io_data).clone();
+        // register the cancel io data before the coroutine is published, a late
+        // registration would overwrite the one of its next blocking call
+        #[cfg(feature = "io_cancel")]
+        let cancel = handle.get_cancel();
+        #[cfg(feature = "io_cancel")]
+        cancel.set_io(io_data.clone());
         io_data.co.store(co);
         #[cfg(may_verif)]
         may_queue::verif::point(may_queue::verif::site::IO_WAITIO_SUB_STORED, 0);
@@ -38,12 +46,12 @@ impl EventSource for RawIoBlock<'_> {
 
         #[cfg(feature = "io_cancel")]
         {
-            let cancel = handle.get_cancel();
-            // register the cancel io data
-            cancel.set_io((*io_data).clone());
-            // re-check the cancel status
+            // re-check the cancel status: a cancel that came before the coroutine
+            // was stored found nothing to wake up
             if cancel.is_canceled() {
-                unsafe { cancel.cancel() };
+                if let Some(co) = io_data.co.take() {
+                    crate::scheduler::get_scheduler().schedule(co);
+                }
             }
         }
     }
